@@ -417,3 +417,61 @@ Fixpoint late_run (q : quirks) (pan : oracle) (cats : list N) (t : N) (steps : l
       let st' := step q pan t sc cfg st in
       late_run q pan cats (t + 1) r st' (late_next cats st' x)
   end.
+
+(** *** the Apply API of TrafficController: ApplyTrafficGate, ApplyPipeline, DeleteTrafficGate, DeletePipeline
+
+    Used by controllers that do their own reconciliation (ingress controllers, function
+    workers): the caller applies every object it wants and deletes the ones it no longer
+    wants; TrafficController decides between Init, nothing and Inherit by looking at what it
+    holds under the name.  State per name: (trafficGates[name], pipelines[name]). *)
+Definition ap_state := (option inst * option inst)%type.
+
+Definition tc_apply (pan : oracle) (t : N) (n : name) (e : ent) (st : ap_state) : ap_state * list entry :=
+  if is_pipe e then
+    match snd st with
+    | None => (fst st, Some (fst (do_init 1 pan t n e)), snd (do_init 1 pan t n e))
+    | Some prev =>
+        if spec_eqb (e_spec (i_ent prev)) (e_spec e) then (st, [])          (* "nothing change": prev stays *)
+        else (fst st, Some (fst (do_inherit 1 pan t n e prev)), snd (do_inherit 1 pan t n e prev))
+    end
+  else
+    match fst st with
+    | None => (Some (fst (do_init 1 pan t n e)), snd st, snd (do_init 1 pan t n e))
+    | Some prev =>
+        if spec_eqb (e_spec (i_ent prev)) (e_spec e) then (st, [])
+        else (Some (fst (do_inherit 1 pan t n e prev)), snd st, snd (do_inherit 1 pan t n e prev))
+    end.
+
+Definition tc_delete (pan : oracle) (t : N) (n : name) (pipe : bool) (st : ap_state) : ap_state * list entry :=
+  if pipe then
+    match snd st with Some i => (fst st, None, do_close 1 pan t n i) | None => (st, []) end
+  else
+    match fst st with Some i => (None, snd st, do_close 1 pan t n i) | None => (st, []) end.
+
+Definition ap_live (st : ap_state) : option (bool * inst) :=
+  match snd st with Some i => Some (true, i) | None => option_map (pair false) (fst st) end.
+
+(** the caller: deletes what it no longer wants - including an object whose kind changes, which
+    it must replace rather than update - and applies what it wants *)
+Definition applier (pan : oracle) (t : N) (n : name) (cfgn : option spec) (st : ap_state) : ap_state * list entry :=
+  match cfgn with
+  | None =>
+      match ap_live st with Some (pp, _) => tc_delete pan t n pp st | None => (st, []) end
+  | Some s =>
+      let e := {| e_spec := s; e_born := t |} in
+      let d := match ap_live st with
+               | Some (pp, i) => if same_kind (e_spec (i_ent i)) s then (st, []) else tc_delete pan t n pp st
+               | None => (st, [])
+               end in
+      let a := tc_apply pan t n e (fst d) in
+      (fst a, snd d ++ snd a)
+  end.
+
+Fixpoint apply_exec (pan : oracle) (t : N) (n : name) (news : list (option spec)) (st : ap_state * list entry)
+  : ap_state * list entry :=
+  match news with
+  | [] => st
+  | new :: r =>
+      let a := applier pan t n new (fst st) in
+      apply_exec pan (t + 1) n r (fst a, snd st ++ snd a)
+  end.
